@@ -49,6 +49,7 @@ fn bodies() -> Vec<(&'static str, Vec<u8>)> {
         ("BITT R0,R1", vec![0xF1, 0x30]),
         ("BITS R0,R1;BITC (R2),R0", vec![0xF1, 0x50, 0xF0, 0x66]),
         ("RRC;ASR", vec![0x40, 0x3D]),
+        ("LDSP 0xE0", vec![0xFB, 0xE0, 0x40]),
     ]
 }
 
@@ -204,6 +205,8 @@ fn interrupted(p: &Prog, t0: &Trace0, triggers: &[u32]) -> Result<RunStats, (Str
     let mut group_norm = false;
     let mut main_idx = 0usize;
     let mut min_sp = t0.min_sp;
+    // stack slots the entry sequences and the routine legitimately wrote (below the SP at the entry)
+    let mut dead = [false; 256];
     let mut prev_boundary: Option<Cpu> = None;
     let mut ti = 0;
     let horizon = t0.edges + 1500;
@@ -251,6 +254,7 @@ fn interrupted(p: &Prog, t0: &Trace0, triggers: &[u32]) -> Result<RunStats, (Str
             if cpu.sp != 0 {
                 min_sp = min_sp.min(cpu.sp);
             }
+            let _ = min_sp;
             if cpu.pc == 2 {
                 // ---- interrupt entry ----
                 st.entries += 1;
@@ -265,6 +269,9 @@ fn interrupted(p: &Prog, t0: &Trace0, triggers: &[u32]) -> Result<RunStats, (Str
                 }
                 if fr_pushed & 0x08 == 0 {
                     return Err(("entry/pushed-fr-without-ie".into(), format!("pushed FR {:#04x} has IE clear although the entry requires IE", fr_pushed)));
+                }
+                for a in cpu.sp.saturating_sub(8)..cpu.sp.wrapping_add(2) {
+                    dead[a as usize] = true;
                 }
                 let pre = Snap { cpu: Cpu { r: cpu.r, pc: ret, fr: fr_pushed, sp: cpu.sp.wrapping_add(2) } };
                 if !t0.snaps.contains(&pre) {
@@ -319,7 +326,7 @@ fn interrupted(p: &Prog, t0: &Trace0, triggers: &[u32]) -> Result<RunStats, (Str
     }
     let ram = m.bus().memory();
     for a in 0..240usize {
-        let dead = (a as u8) >= min_sp.saturating_sub(8) && (a as u8) < cpu.sp;
+        let dead = dead[a];
         if a == CNT as usize {
             if p.isr > 0 && ram[a] as u32 != st.entries {
                 return Err(("entry/counter-mismatch".into(), format!("ISR counter cell {} != observed entries {}", ram[a], st.entries)));
@@ -536,7 +543,7 @@ pub fn run() {
     ctx.set("distinct_nontrivial", all.runs - all.by_count.get(&0).cloned().unwrap_or(0));
     ctx.set("rule", "schedule = (program, multiset of trigger edges); deviation 0: no trigger; 1: one trigger before every clock edge 0..T of the run; 2: every ordered pair of trigger edges in a 120-edge window; every schedule is executed edge by edge on the real machine and compared with the uninterrupted twin; distinct_nontrivial = schedules in which the routine was entered at least once");
     ctx.set("exhaustive", true);
-    ctx.set("bounds", format!("{} programs (prologue + every body sequence of length <= {} over 24 instruction kinds x ISRs {{RETI, counter, MUL+CALL}}, + enable-bit-clear and EI-less variants); deviation bound 2 (pairs on {} of the programs)", fam.len(), if quick { 2 } else { 3 }, if quick { "1/4" } else { "1/2" }));
+    ctx.set("bounds", format!("{} programs (prologue + every body sequence of length <= {} over 25 instruction kinds x ISRs {{RETI, counter, MUL+CALL}}, + enable-bit-clear and EI-less variants); deviation bound 2 (pairs on {} of the programs)", fam.len(), if quick { 2 } else { 3 }, if quick { "1/4" } else { "1/2" }));
     ctx.set("schedules", all.runs);
     ctx.set("routine_entries_observed", all.entries);
     ctx.set("entries_required_by_statement", all.normative);
